@@ -394,13 +394,26 @@ class Executor:
             pending.extend(self.new_alternatives)
         return self.obligations
 
-    def choose(self, term=None):
+    def choose(self, term=None, exit_fork=False):
         if term is not None:
             s = z3.simplify(term)
             if z3.is_true(s):
                 return True
             if z3.is_false(s):
                 return False
+        loc = getattr(self, "_local", None)
+        if loc is not None and term is not None and not exit_fork:
+            # a value-level fork inside a comprehension element: the decision concerns ONE (generic) element, so it is
+            # explored locally by map_comprehension (all alternatives, combined per element), not as a path of the function
+            if loc["pos"] < len(loc["trace"]):
+                d = loc["trace"][loc["pos"]]
+            else:
+                d = True
+                loc["trace"].append(True)
+                loc["new"].append(loc["trace"][: loc["pos"]] + [False])
+            loc["pos"] += 1
+            self.st.assume(term if d else z3.Not(term))
+            return d
         if self.pos < len(self.trace):
             d = self.trace[self.pos]
         else:
@@ -428,7 +441,8 @@ class Executor:
                 # still count it: a trivially true obligation is discharged by simplification
                 pass
         base = f"{self.contract.qual}/{kind}@L{self.rel(node)}"
-        key = (base, tuple(self.trace[: self.pos]))
+        loc = getattr(self, "_local", None)
+        key = (base, tuple(self.trace[: self.pos]) + ((("local",) + tuple(loc["trace"][: loc["pos"]])) if loc is not None else ()))
         if key in self.obligations:
             return
         n = sum(1 for (b, _t) in self.obligations if b == base)
@@ -1446,6 +1460,13 @@ class Executor:
             kk = z3.simplify(k.t)
             if z3.is_int_value(kk):
                 return o.items[kk.as_long()]
+        if isinstance(o, VStr) and isinstance(k, VInt):
+            # s[k]: the one-character string at position k (TB-py: strings as a length and a character function)
+            n = strlen(o.t)
+            self.oblige("noraise.str_index", node, z3.And(-n <= k.t, k.t < n))
+            if self.choose(k.t < 0):
+                return VStr(chr_at(o.t, z3.simplify(n + k.t)))
+            return VStr(chr_at(o.t, k.t))
         if isinstance(o, VDict) and hasattr(k, "t") and k.t.sort() == o.kt.sort():
             self.oblige("noraise.key", node, self.mem_keys(o.keys, k.t))
             self.st.assume(self.mem_keys(o.keys, k.t))  # holds on every path that continues (else KeyError)
@@ -1804,27 +1825,58 @@ class Executor:
         consts_before = len(st.fresh_consts)
         st.assume([0 <= i, i < seq.len()])
         guard_pos = len(st.pc)
-        self.assign(gen.target, seq.at(i))
-        ev = self.eval(node.elt)
-        new_pc = st.pc[guard_pos:]
+        # the element expression is evaluated for a generic index i.  Where it forks on a value (x if c else y, and /
+        # or, an inlined helper's if) the decision differs from element to element: every alternative is evaluated
+        # here (local exploration) and the element's defining fact is the DISJUNCTION of the alternatives.
+        saved_heap = dict(st.heap)
+        outer_local = getattr(self, "_local", None)
+        branches = []
+        pending = [[]]
+        while pending:
+            prefix = pending.pop()
+            st.env = dict(saved_env)
+            st.heap = dict(saved_heap)
+            del st.pc[guard_pos:]
+            self._local = {"trace": list(prefix), "pos": 0, "new": []}
+            try:
+                self.assign(gen.target, seq.at(i))
+                ev = self.eval(node.elt)
+            except (RaiseExc, PathEnd):
+                if self._local["trace"] or pending or branches:
+                    raise Unsupported("exception inside a comprehension element that forks on a value")
+                raise
+            finally:
+                loc = self._local
+                self._local = outer_local
+            pending.extend(loc["new"])
+            if any(st.heap.get(k) is not v for k, v in saved_heap.items()) or len(st.heap) != len(saved_heap):
+                if loc["trace"] or pending or branches:
+                    raise Unsupported("heap effect inside a comprehension element that forks on a value")
+            branches.append((list(st.pc[guard_pos:]), ev))
         new_consts = st.fresh_consts[consts_before:]  # everything created while evaluating the element (i itself was created before)
         st.env = saved_env
         del st.pc[pc_before:]
+        ev = branches[0][1]
         if isinstance(ev, (VRef, VTuple, VFalseOr, VOptional, VDict)):
             raise Unsupported("comprehension element type")
         et = ev.ty
+        if any(b[1].ty is not et and repr(b[1].ty) != repr(et) for b in branches):
+            raise Unsupported("comprehension element of different types on different branches")
         LT = et.list_theory()
         r = st.fresh_const("comp", LT.sort)
         sub = []
         for c in new_consts:
             f = z3.Function(f"sk_{c.decl().name()}", L.Int, c.sort())
             sub.append((c, f(i)))
-        body = [LT.at(r, i) == ev.t]
-        for f in new_pc:
-            if isinstance(f, L.Forall):
-                raise Unsupported("quantified fact inside comprehension element")
-            body.append(f)
-        body = z3.And(*body)
+        alts = []
+        for facts, bev in branches:
+            body = [LT.at(r, i) == bev.t]
+            for f in facts:
+                if isinstance(f, L.Forall):
+                    raise Unsupported("quantified fact inside comprehension element")
+                body.append(f)
+            alts.append(z3.And(*body))
+        body = alts[0] if len(alts) == 1 else z3.Or(*alts)
         if sub:
             body = z3.substitute(body, sub)
         st.assume(LT.len(r) == seq.len())
@@ -1992,7 +2044,7 @@ class Executor:
         # exceptional outcomes the callee is allowed to have
         for exc, cond in ct.raises.items():
             c = cond(cview)
-            if self.choose(c if getattr(ct, "raise_exact", False) else None):
+            if self.choose(c if getattr(ct, "raise_exact", False) else None, exit_fork=True):
                 if not getattr(ct, "raise_exact", False):
                     st.assume(c)
                 # heap effects of a raising callee: havoc what it may modify
